@@ -67,7 +67,11 @@ def spell(d: gen.D, s: str, form: str) -> tuple[str, bool]:
     nonraw = False
     for ch in s:
         r = d.i(0, 99)
-        if r < 10:
+        if r < 3:
+            # double encoding: the reference itself is written with an escaped/encoded ampersand, so one level of
+            # decoding yields the literal text of a reference - it must stay literal (and escaped) in the output
+            out.append(d.pick(["\\&#%d;", "&amp;#%d;", "&#38;#%d;", "\\&#x%x;", "&amp;#x%X;"]) % ord(ch)); nonraw = True
+        elif r < 10:
             out.append("&#%d;" % ord(ch)); nonraw = True
         elif r < 20:
             out.append(("&#x%X;" if d.chance(0.5) else "&#X%x;") % ord(ch)); nonraw = True
@@ -94,6 +98,7 @@ def _case(draw):
     d = gen.D(draw)
     k = d.i(0, 9)
     cfg = d.pick([C.simple("commonmark"), C.simple("js-default"), C.simple("commonmark", html=False), C.simple("js-default", html=True), C.simple("js-default", linkify=True), C.simple("commonmark", linkify=True, typographer=True)])
+    cfg = gen.maybe_late(d, cfg)
     if d.chance(0.15):
         cfg = gen.config_d(d)
     if k < 7:
